@@ -178,7 +178,9 @@ def gen_doc(rng, malformed=False):
             meta['basicPropertyValues'].reverse()
         if rng.random() < 0.2:
             meta['basicPropertyValues'] = meta['basicPropertyValues'][:1]
-    return {'id': 'hp', 'nodes': nodes, 'edges': edges, 'meta': meta}
+    # the graph id as real releases have it (hp.json, maxo.json, ...) or a bare name; it does not influence what is loaded
+    gid = rng.choice(['hp', BASE + 'hp.json', BASE + 'mondo.json', BASE + 'hpx.json', BASE + 'maxo.owl', BASE + 'hp/releases/2024-01-01/hp.json', ''])
+    return {'id': gid, 'nodes': nodes, 'edges': edges, 'meta': meta}
 
 
 def dump_impl(o, full):
